@@ -26,6 +26,9 @@ func (t *tagger) u32() uint32 {
 	k := t.k
 	return (0x81+k%0x7d)<<24 | (0x11+(k*3)%0x6b)<<16 | (0x21+(k*5)%0x59)<<8 | (0x31 + (k*7)%0x4d)
 }
+
+// Skip advances the tag counter so that a second generator yields other values.
+func (t *tagger) Skip()       { t.k += 13 }
 func (t *tagger) u16() uint16 { return uint16(t.u32() >> 16) }
 func (t *tagger) u8() uint8   { return uint8(t.u32() >> 24) }
 func (t *tagger) u64() uint64 { return uint64(t.u32())<<32 | uint64(t.u32()^0x0f0f0f0f) }
